@@ -20,7 +20,7 @@ Kw(cls) == Singles(cls)
 
 SimpleVals ==
     [Tags |-> {"none", "one", "two"}, MeasurementData |-> {"none", "obj", "text", "emptyobj", "list", "zero", "fzero", "false", "emptylist"},
-     UserData |-> {"none", "obj", "text", "zero", "false", "emptylist"}, LayoutData |-> {"none", "obj", "text", "zero", "emptylist"}, Gateway |-> {"v4", "v6", "v4mac"}, PathInfo |-> {"path", "asym", "graph"},
+     UserData |-> {"none", "obj", "text", "zero", "false", "emptylist"}, LayoutData |-> {"none", "obj", "text", "zero", "emptylist"}, Gateway |-> {"v4", "v6", "v4mac", "v6mac"}, PathInfo |-> {"path", "asym", "graph"},
      ERO |-> {"path_strict", "path_loose", "graph_strict"}, Label |-> {"plain", "colon"}, Capacity |-> {"plain"},
      LocationTuple |-> {"plain", "colon"}, AllocationConstraint |-> {"plain"}]
 
